@@ -38,16 +38,16 @@ PROP = dict(
     ],
     jobs=dict(
         quick=[
-            job("lnwire", "^TestVerifC10ValueRoundTrip$", ["TestVerifC10ValueRoundTrip"], 7000, shards=2),
+            job("lnwire", "^TestVerifC10ValueRoundTrip$", ["TestVerifC10ValueRoundTrip"], 15000, shards=2),
             job("lnwire", "^TestVerifC10SizeBoundary$", ["TestVerifC10SizeBoundary"], 400, shards=1),
-            job("lnwire", "^TestVerifC10BytesFixpoint$", ["TestVerifC10BytesFixpoint"], 7000, shards=2),
+            job("lnwire", "^TestVerifC10BytesFixpoint$", ["TestVerifC10BytesFixpoint"], 15000, shards=2),
             job("lnwire", "^TestVerifC10Prefixes$", ["TestVerifC10Prefixes"], 150, shards=1),
             job("lnwire", "^TestVerifC10AllocBound$", ["TestVerifC10AllocBound"], 25, shards=2),
             job("lnwire", "^TestVerifC10(OnionFailure|FailurePacket)$",
                 ["TestVerifC10OnionFailure", "TestVerifC10FailurePacket"], 6000, shards=1),
             job("lnwire", "^TestVerifC10(ExtraDataTLV|CustomRecords)$",
                 ["TestVerifC10ExtraDataTLV", "TestVerifC10CustomRecords"], 8000, shards=1),
-            job(TLV, "^TestVerifC10TLVStream$", ["TestVerifC10TLVStream"], 25000, shards=2),
+            job(TLV, "^TestVerifC10TLVStream$", ["TestVerifC10TLVStream"], 50000, shards=2),
             job(TLV, "^TestVerifC10(VarInt|Truncated)$", ["TestVerifC10VarInt", "TestVerifC10Truncated"], 30000, shards=1),
         ],
         thorough=[
